@@ -14,7 +14,7 @@ import os
 import shutil
 import tempfile
 
-from ..explore import Chooser, explore, split_prefixes
+from ..explore import Chooser, explore, explore_root, split_first_deviation, split_prefixes
 
 PROPERTY = 'C19'
 LEVEL = 'model_checking'
@@ -288,7 +288,9 @@ def queue_shard(m, items):
                 return queue_run(ch, scratch, nsends, nreaders, maxrecv)
 
             first = True
-            for choices, ch, (obs, bad) in explore(body, bound=bound, root=root):
+            how, root = root
+            it = explore(body, bound=bound, root=root) if how == 'prefix' else explore_root(body, bound, root)
+            for choices, ch, (obs, bad) in it:
                 if first:
                     obs2, _ = body(Chooser(choices))
                     if obs2 != obs:
@@ -316,7 +318,12 @@ def queue_work(cfgs):
     try:
         for cfg in cfgs:
             nsends, nreaders, maxrecv, bound = cfg
-            for root in split_prefixes(lambda ch: queue_run(ch, scratch, nsends, nreaders, maxrecv), 3, bound):
+            body = lambda ch: queue_run(ch, scratch, nsends, nreaders, maxrecv)  # noqa: E731
+            if bound is None:
+                roots = [('prefix', r) for r in split_prefixes(body, 3, bound)]
+            else:
+                roots = [('first-deviation', r) for r in split_first_deviation(body)]
+            for root in roots:
                 work.append((cfg, root))
     finally:
         shutil.rmtree(scratch, ignore_errors=True)
